@@ -708,6 +708,10 @@ class GhostRecordDict:
         owner = self.owner
 
         class L_:
+            def sym_contains(s_, I2, item):
+                # whether an equal record is already in the list: unknown (record equality ignores the transcript)
+                return I2.e.bool('an_equal_record_is_already_stored')
+
             def sym_method(s_, I2, name, a, k):
                 if name == 'append':
                     owner._cur.stored.append((key, a[0]))
